@@ -23,7 +23,7 @@ import time
 from collections import Counter
 
 from . import build, project, tracecheck
-from .core import MachineryError, Part, merge_worker_outputs, parallel_replay
+from .core import trim, MachineryError, Part, merge_worker_outputs, parallel_replay
 from .fam_iter import EXC, canon_tree, fingerprint, full_tree, judge_trees
 from .fam_sql import bag, db, load_table
 from .procs import make_processor
@@ -156,6 +156,10 @@ def replay_state(st: dict, out: dict, want_event: bool, want_rejects: bool, want
         props = ["C03"] if type(exc).__name__ == "ColumnError" else ["C03", "C08"]
         V(props, f"a call the specification accepts raised {type(exc).__name__}: {str(exc)[:300]}", call=last)
         return
+    try:
+        hash(rel)
+    except TypeError as exc:
+        V(["C09"], f"a relation built by the factories is not hashable: {exc}", relation=str(rel))
     # ---- structural expectations
     m = project.meta(rel)
     mm = st["meta"]
@@ -253,6 +257,30 @@ def replay_state(st: dict, out: dict, want_event: bool, want_rejects: bool, want
         proc.cleanup()
     if fingerprint(rel)[:5] != fp_before[:5]:
         V(["C07", "C09"], "process() changed the structure/metadata of the tree passed in")
+    # ---- the same final call issued on the PROCESSED base tree (payloaded transfers / materializations):
+    #      rebuilding a transfer upstream of which an operation was inserted must not keep a stale payload
+    if st["final"] and last is not None and last["f"] == "un" and len(st["hist"]) >= 2 and (st["ldet"] or st["bdet"]) and not st["kf2"]:
+        proc2 = make_processor(w.conn, w.eng["sql"])
+        try:
+            w2 = World(st)
+            base = w2.leaf
+            for c in st["hist"][:-1]:
+                base = w2.call(c, base)
+            try:
+                pbase = proc2.process(base)
+                rel2 = w2.call(last, pbase)
+                got2, _ = evaluate(w2, rel2, proc2)
+                cnt["processed_base_variants"] = cnt.get("processed_base_variants", 0) + 1
+                bad2 = (got2 != exp) if st["ldet"] else (bag(got2) != bag(exp))
+                if bad2 and not _kf2(st, project.tree(rel2)):
+                    V(["C03", "C07", "C09"], "the final call issued on the already PROCESSED base tree gives different rows "
+                                             "(a rebuilt marker kept a stale payload?)", observed=got2, expected=exp)
+            except Exception as exc:  # noqa: BLE001
+                if not (type(exc).__name__ == "EngineError" and ("Cannot persist materialization" in str(exc))
+                        and sql_mat_after_xfer(project.tree(base))) and type(exc).__name__ != "EngineError":
+                    V(["C03", "C07"], f"the final call on the processed base tree raised {type(exc).__name__}: {str(exc)[:200]}")
+        finally:
+            proc2.cleanup()
     _rejects_and_event(st, out, w, rel, real_tree, same_shape, want_event, want_rejects, case, V, cnt)
 
 
@@ -366,8 +394,8 @@ def worker(lines, ctx):
             out["nontrivial"] += 1
         replay_state(st, out, want_event=(i % every == 0), want_rejects=(i % ctx.get("rejects_every", 1) == 0),
                      want_rows=ctx.get("want_rows", True))
-        if len(out["violations"]) > 40:
-            out["violations"] = out["violations"][:40]
+        if len(out["violations"]) > 60:
+            out["violations"] = trim(out["violations"])
         if len(out["samples"]) < 1 and st["fired"]:
             out["samples"].append({"src": st["src"], "l1": st["l1"], "hist": st["hist"], "expected_rows": st["rows"]})
     return out
@@ -383,7 +411,7 @@ CONFIGS = {
 def run(tier: str, seed: int) -> list[Part]:
     parts = []
     plan = CONFIGS[tier]
-    if tier == "quick" and os.environ.get("VERIF_FOCUS", "") not in ("", "C03", "C15", "C07"):
+    if tier == "quick" and os.environ.get("VERIF_FOCUS", "") not in ("", "C03", "C15", "C07", "C09"):
         # for the properties this family serves only in second place a shallower configuration is replayed
         plan = [("MultiLite.cfg", 3)]
     if tier == "quick" and os.environ.get("VERIF_FOCUS", "") == "C07":
@@ -398,8 +426,8 @@ def run(tier: str, seed: int) -> list[Part]:
         focus = os.environ.get("VERIF_FOCUS", "")
         ctx = {"event_every": every, "rejects_every": 3 if tier == "quick" else 2,
                # processing + executing every state is what C03 / C07 need; the structural properties do not
-               "want_rows": not (tier == "quick" and focus in ("C15", "C14", "C06", "C20"))}
-        if tier == "quick" and focus in ("C15",):
+               "want_rows": not (tier == "quick" and focus in ("C15", "C14", "C06", "C20", "C09"))}
+        if tier == "quick" and focus in ("C15", "C09"):
             ctx["rejects_every"] = 10**9
         outs = parallel_replay(worker, res.raw_lines(), ctx=ctx, chunk=150)
         merge_worker_outputs(part, outs)
